@@ -38,6 +38,17 @@ type rtSock struct {
 	// disconnect requests written (each write takes discDelay, as a write to a real socket takes time)
 	dreqs     int
 	discDelay time.Duration
+	// every connect request is granted a new channel id (7, 8, ...) when set; the current one
+	incCh  bool
+	grants int
+	// tunnelling requests carrying this telegram are never acknowledged (0: none); every tunnelling
+	// request seen, as "channel:seq:pid"
+	mutePid int
+	treqs   []string
+	// the write of the routing indication carrying this telegram blocks until `unblock` is closed
+	blockPid int
+	unblock  chan struct{}
+	blocked  chan struct{}
 }
 
 // rtGateway: accepts the expected sequence number (bus), acknowledges it, acknowledges a repetition
@@ -57,6 +68,19 @@ func (s *rtSock) add(l string) {
 func (s *rtSock) Send(p knxnet.ServicePackable) error {
 	switch f := p.(type) {
 	case *knxnet.RoutingInd:
+		if s.blockPid != 0 && pidOf(f.Payload) == s.blockPid && s.unblock != nil {
+			select {
+			case <-s.unblock:
+			default:
+				if s.blocked != nil {
+					select {
+					case s.blocked <- struct{}{}:
+					default:
+					}
+				}
+				<-s.unblock
+			}
+		}
 		s.add(fmt.Sprintf("tx %d %d", s.us(), pidOf(f.Payload)))
 	case *knxnet.DiscReq:
 		s.mu.Lock()
@@ -71,14 +95,28 @@ func (s *rtSock) Send(p knxnet.ServicePackable) error {
 		}
 		time.Sleep(d)
 	case *knxnet.ConnReq:
+		s.mu.Lock()
+		ch := uint8(7)
+		if s.incCh {
+			ch = uint8(7 + s.grants)
+			s.grants++
+		}
+		if s.gw != nil {
+			s.gw.expected = 0
+		}
+		s.mu.Unlock()
 		go func() {
 			defer func() { recover() }()
-			s.inbound <- &knxnet.ConnRes{Channel: 7, Status: 0, Control: knxnet.HostInfo{Protocol: knxnet.UDP4}}
+			s.inbound <- &knxnet.ConnRes{Channel: ch, Status: 0, Control: knxnet.HostInfo{Protocol: knxnet.UDP4}}
 		}()
 	case *knxnet.TunnelReq:
 		s.mu.Lock()
 		gw := s.gw
 		var ack *knxnet.TunnelRes
+		s.treqs = append(s.treqs, fmt.Sprintf("%d:%d:%d", f.Channel, f.SeqNumber, pidOf(f.Payload)))
+		if s.mutePid != 0 && pidOf(f.Payload) == s.mutePid {
+			gw = nil
+		}
 		if gw != nil {
 			gw.seen = append(gw.seen, fmt.Sprintf("%d:%d", f.SeqNumber, pidOf(f.Payload)))
 			switch f.SeqNumber {
@@ -558,4 +596,114 @@ drained:
 	d := sock.dreqs
 	sock.mu.Unlock()
 	return fmt.Sprintf("dreq=%d returned=%d/%d inbound=%s send=%s second=%s", d, returned, closers, inbound, send, second)
+}
+
+// runReconnRT: "rcrt <ms before the gateway disconnects> <resend ms> <timeout ms>": a Send whose request the
+// gateway never acknowledges is still repeating when the gateway disconnects the tunnel; the client
+// reconnects and is granted ANOTHER channel id while that Send is pending.  Every repetition of a request
+// must be the request as first transmitted (channel and sequence number).  Trace: the tunnelling requests
+// seen by the gateway as channel:seq:telegram, and how the three Sends returned.
+func runReconnRT(t *testing.T, line string) string {
+	f := strings.Fields(line)
+	if len(f) != 4 {
+		return "bad-script"
+	}
+	discAt, _ := strconv.Atoi(f[1])
+	resend, _ := strconv.Atoi(f[2])
+	timeout, _ := strconv.Atoi(f[3])
+	sock := &rtSock{start: time.Now(), inbound: make(chan knxnet.Service), gw: &rtGateway{}, incCh: true, mutePid: 2}
+	tun, err := knx.VerifNewTunnel(sock, knxnet.TunnelLayerData, knx.TunnelConfig{
+		ResendInterval: time.Duration(resend) * time.Millisecond, ResponseTimeout: time.Duration(timeout) * time.Millisecond,
+		HeartbeatInterval: time.Hour})
+	if err != nil {
+		return "connect-failed " + err.Error()
+	}
+	go func() {
+		for range tun.Inbound() {
+		}
+	}()
+	res := func(err error) string {
+		if err == nil {
+			return "ok"
+		}
+		return "err"
+	}
+	r1 := res(tun.Send(payload(1, false)))
+	second := make(chan string, 1)
+	go func() { second <- res(tun.Send(payload(2, false))) }()
+	time.Sleep(time.Duration(discAt) * time.Millisecond)
+	func() {
+		defer func() { recover() }()
+		select {
+		case sock.inbound <- &knxnet.DiscReq{Channel: 7}:
+		case <-time.After(2 * time.Second):
+		}
+	}()
+	r2 := "stuck"
+	select {
+	case r2 = <-second:
+	case <-time.After(time.Duration(timeout)*time.Millisecond + 3*time.Second):
+	}
+	time.Sleep(20 * time.Millisecond) // the reconnect completes once the pending Send has let go
+	third := make(chan string, 1)
+	go func() { third <- res(tun.Send(payload(3, false))) }()
+	r3 := "stuck"
+	select {
+	case r3 = <-third:
+	case <-time.After(time.Duration(timeout)*time.Millisecond + 3*time.Second):
+	}
+	sock.Close()
+	sock.mu.Lock()
+	defer sock.mu.Unlock()
+	return fmt.Sprintf("treqs=%s rets=%s,%s,%s", strings.Join(sock.treqs, ","), r1, r2, r3)
+}
+
+// runLostRT: "lrt <sent before> <k>": a lost indication arrives while a Send is inside the socket's write
+// (it holds the send lock): the resend is computed when the lock is obtained, i.e. over everything
+// transmitted by then.  Trace: tx <us> <pid> ... ; lost <us> <k>
+func runLostRT(t *testing.T, line string) string {
+	f := strings.Fields(line)
+	if len(f) != 3 {
+		return "bad-script"
+	}
+	before, _ := strconv.Atoi(f[1])
+	k, _ := strconv.Atoi(f[2])
+	sock := &rtSock{start: time.Now(), inbound: make(chan knxnet.Service), blockPid: before + 1,
+		unblock: make(chan struct{}), blocked: make(chan struct{}, 1)}
+	r := knx.VerifNewRouter(sock, knx.RouterConfig{RetainCount: 8})
+	for i := 1; i <= before; i++ {
+		r.Send(payload(i, true))
+	}
+	done := make(chan struct{})
+	go func() { r.Send(payload(before+1, true)); close(done) }()
+	select {
+	case <-sock.blocked:
+	case <-time.After(2 * time.Second):
+		return "bad-script"
+	}
+	handed := false
+	if d, ok := viaWire(&knxnet.RoutingLost{Count: uint16(k)}); ok {
+		select {
+		case sock.inbound <- d:
+			handed = true
+			sock.add(fmt.Sprintf("lost %d %d", sock.us(), k))
+		case <-time.After(2 * time.Second):
+		}
+	}
+	time.Sleep(5 * time.Millisecond) // the serve loop is now waiting for the send lock
+	close(sock.unblock)
+	select {
+	case <-done:
+	case <-time.After(2 * time.Second):
+		sock.add("stuck 1")
+	}
+	time.Sleep(30 * time.Millisecond)
+	r.Close()
+	sock.mu.Lock()
+	defer sock.mu.Unlock()
+	log := append([]string(nil), sock.log...)
+	if !handed {
+		log = append(log, "busy-not-taken 0")
+	}
+	return strings.Join(log, " ; ")
 }
